@@ -58,7 +58,7 @@ def gen(rng, n, tier):
                 ws = "none" if rng.random() < 0.6 else [Fr(rng.randint(0, 12), 4) for _ in range(m)]
                 ops.append(["fill_n", rows, ws, "T"])
         yield [["bucket", "%dd/%s/%s" % (nd, "exact" if exact else "float", "empty" if size == 0 else "pre")],
-               ["init", init], ["ops", ops], ["exact", "T" if exact else "F"]]
+               ["init", init], ["ops", ops], ["exact", "T" if exact else "F"], ["peek", "T" if rng.random() < 0.3 else "F"]]
 
 def _mk(init):
     import numpy as np
@@ -89,11 +89,15 @@ def impl(case):
     import numpy as np, physt, warnings
     d = sx.rec(case)
     h = _mk(d["init"]); nd = h.ndim
+    init_edges = [[float(x) for x in b.numpy_bins] if b.bin_count > 0 else [] for b in h._binnings]
+    peek = d.get("peek", "F") == "T"
     empty0 = all(x == 0 for x in sx.rec(d["init"])["freq"])
     steps = []; allv = []; allw = []; anyrefused = False
     with warnings.catch_warnings():
         warnings.simplefilter("ignore")
         for op in d["ops"]:
+            if peek:      # looking at the histogram between calls must not matter (cached arrays)
+                _ = (h.bins, h.bin_sizes, h.densities, [b.numpy_bins for b in h._binnings]); _ = h.bin_left_edges if nd == 1 else h.get_bin_left_edges(0)
             try:
                 if op[0] == "fill":
                     v = [sx.fl(x) for x in op[1]]; w = op[2]; w = float(w) if isinstance(w, Fr) and w.denominator != 1 else int(w)
@@ -119,7 +123,7 @@ def impl(case):
         same = (np.asarray(g.frequencies).tolist() == np.asarray(h.frequencies).tolist() and
                 np.asarray(g.errors2).tolist() == np.asarray(h.errors2).tolist())
         batch = "T" if same else "F"
-    return [steps, batch]
+    return [steps, batch, init_edges]
 
 def corr_view(case, obs): return obs[0]
 def corr_equal(case, a, b):
